@@ -88,6 +88,110 @@ def enum_scripts(th):
     return out
 
 
+def aw_cfg(acceptors, maxtime, deadlines, peers, sets, invariants, spec="ASpec", extra="", backlog=2):
+    s = "SPECIFICATION %s\nCONSTANTS\n  Acceptors = {%s}\n  MaxTime = %d\n  Deadlines = %s\n  MaxPeers = %d\n  MaxSets = %d\n  Backlog = %d\n" % (
+        spec, ", ".join('"a%d"' % (i + 1) for i in range(acceptors)), maxtime, deadlines, peers, sets, backlog)
+    s += extra
+    if invariants:
+        s += "INVARIANTS " + " ".join(invariants) + "\n"
+    s += "CHECK_DEADLOCK FALSE\n"
+    return s
+
+
+ACCEPT_KNOWN = {"C13_AcceptDeadline_ChangedWhileBlocked": "C13/AcceptDeadline_ChangedWhileBlocked"}
+ACCEPT_INV = ["C13_AcceptNoEarlyTimeout", "C13_AcceptTimeoutAtDeadline", "C13_AcceptNothingStranded", "C13_AcceptCloseWakesAll",
+              "C13_AcceptErrorWakesAll", "C13_AcceptNotBlockedPastDeadline", "C13_AcceptDeadline_ChangedWhileBlocked"]
+
+
+def accept_enum_scripts():
+    """Accept, enumerated: one or two goroutines blocked in Accept; a deadline set before the call or not; then one of: a peer connects,
+    two peers connect, the listener is closed, its socket fails, the deadline is set / changed / cleared while the call is blocked."""
+    def st(ev, x="", v=0):
+        return dict(ev=ev, x=x, v=v)
+    out = []
+    for k in (1, 2):
+        starts = [st("start", "a%d" % (i + 1)) for i in range(k)]
+        for pre in (None, 2, 3):
+            head = ([st("setdl", v=pre)] if pre is not None else []) + starts
+            for ev in (["connect"], ["connect", "connect"], ["close"], ["sockerr"], ["tick", "connect"], ["tick", "tick", "connect"], ["tick", "close"],
+                       ["tick", "sockerr"], []):
+                tail = [] if "close" in ev else [st("close"), st("tick")]
+                out.append(dict(callers=k, steps=head + [st(e) for e in ev] + [st("tick")] * 4 + tail, src="enum-accept"))
+            for chg in ((2,), (0,), (4,), (0, 2), (3, 2)):
+                steps = head + [st("tick")]
+                for v in chg:
+                    steps.append(st("setdl", v=v))
+                out.append(dict(callers=k, steps=steps + [st("tick")] * 5 + [st("connect"), st("connect"), st("tick"), st("close"), st("tick")],
+                                src="enum-accept-change"))
+    # a session already waiting in the backlog when the call starts; a deadline in the past
+    out.append(dict(callers=1, steps=[st("connect"), st("tick"), st("start", "a1"), st("tick")], src="enum-accept"))
+    out.append(dict(callers=1, steps=[st("tick"), st("tick"), st("setdl", v=1), st("start", "a1"), st("tick"), st("tick")], src="enum-accept"))
+    return out
+
+
+def accept_stage(v, scr, th):
+    """AcceptWait.tla: MC, the strict deadline property must be refuted (known finding), scripts on a real Listener, monitors, trace validation."""
+    props = ["NoEarlyTimeout", "NothingStranded", "CloseWakesAll", "ErrorWakesAll", "DeadlineHonoured"]
+    for (name, text) in [("mc_accept_two.cfg", aw_cfg(2, 5 if th else 4, "{0, 2, 3}", 2, 3 if th else 2, props)),
+                         ("mc_accept_one.cfg", aw_cfg(1, 5, "{0, 1, 2, 3, 4}", 2, 3, props))]:
+        p = cc.write_cfg(scr, name, text)
+        r = vlib.run_tlc(scr, "AcceptWait", name, extra_files=[p], timeout=1800)
+        if not r.ok:
+            raise MachineryError("%s: %s violated in AcceptWait.tla\n%s" % (name, r.violation, r.out[-2000:]))
+        v.add_tlc(r, name)
+    p = cc.write_cfg(scr, "mc_accept_strict.cfg", aw_cfg(1, 4, "{0, 2, 3}", 1, 2, ["DeadlineHonouredStrict"]))
+    r = vlib.run_tlc(scr, "AcceptWait", "mc_accept_strict.cfg", extra_files=[p], timeout=600)
+    if r.ok or r.violation != "DeadlineHonouredStrict":
+        raise MachineryError("AcceptWait.tla: the strict deadline property is not refuted (%s) -- the model no longer shows the known finding" % r.violation)
+    v.notes.setdefault("tlc_runs", []).append(dict(label="mc_accept_strict.cfg (must be refuted: DeadlineHonouredStrict)", **r.summary()))
+    ind, outd = scr.sub("acc-in"), scr.sub("acc-out")
+    spath = os.path.join(ind, "accept_scripts.ndjson")
+    n = 0
+    with open(spath, "w") as f:
+        for i, (label, acc, depth) in enumerate([("one", 1, 12), ("two", 2, 14)]):
+            text = aw_cfg(acc, 6, "{0, 1, 2, 3, 4, 5}", 3, 4, ["EmitBeh"], spec="SimSpec", extra="  SimDepth = %d\n" % depth, backlog=128)
+            p = cc.write_cfg(scr, "sim_accept_%s.cfg" % label, text)
+            r = vlib.run_tlc(scr, "AcceptWaitSim", "sim_accept_%s.cfg" % label, workers=4,
+                             extra=("-simulate", "num=%d" % ((400 if th else 80) // 4), "-depth", "200", "-seed", str(vlib.seed() * 37 + i)),
+                             timeout=900, extra_files=[p])
+            if not r.ok:
+                raise MachineryError("accept script generation stopped: %s\n%s" % (r.violation, r.out[-1500:]))
+            for b in vlib.iter_marked(r.outpath, "BEH"):
+                b["src"] = "accept-" + label
+                f.write(json.dumps(b) + "\n")
+                n += 1
+            shutil.rmtree(r.wd, ignore_errors=True)
+        es = accept_enum_scripts()
+        for sc in es:
+            f.write(json.dumps(sc) + "\n")
+    v.notes["accept_scripts"] = dict(generated=n, enumerated=len(es))
+    rc, out = vlib.go_test("./waitdrv", "TestAcceptScripts$", dict(VERIF_IN=ind, VERIF_OUT=outd), timeout=1800)
+    if rc != 0:
+        raise MachineryError("accept driver failed:\n" + out[-4000:])
+    old = cc.obs_cfg
+    cc.obs_cfg = lambda inv: "SPECIFICATION Spec\nINVARIANTS " + " ".join(inv) + "\nCHECK_DEADLOCK FALSE\n"
+    try:
+        cc.validate_traces(v, scr, "C13", os.path.join(outd, "accept_scripts.ndjson"), "accept_scripts", ACCEPT_INV, ACCEPT_KNOWN, conformance=False,
+                           obs_module="AcceptObs")
+    finally:
+        cc.obs_cfg = old
+    s = json.load(open(os.path.join(outd, "accept_scripts.json")))
+    v.cov["evaluations"] += s["Steps"] + s["Scripts"]
+    v.cov["distinct_nontrivial"] += s["Nontrivial"]
+    v.notes["accept_results"] = s["Kinds"]
+    tp = scr.path("trace.ndjson")
+    shutil.copy(os.path.join(outd, "accept_scripts.ndjson"), tp)
+    r = vlib.run_tlc(scr, "AcceptTrace", "AcceptTrace.cfg", workers=1, extra_files=[tp], timeout=1800)
+    if not r.ok:
+        rej = [ln for ln in r.out.splitlines() if "REJECTED-AT" in ln]
+        if r.violation == "postcondition" or rej:
+            v.drift.append("AcceptTrace: observed returns not explainable by AcceptWait.tla %s" % (rej[:1],))
+        else:
+            raise MachineryError("AcceptTrace could not be evaluated:\n" + r.out[-2500:])
+    else:
+        v.notes["accept_trace_states"] = r.distinct
+
+
 def check_c13(tier, replay):
     v = vlib.Verdict("C13", tier, "model_checking")
     scr = vlib.Scratch("c13")
@@ -160,6 +264,8 @@ def check_c13(tier, replay):
                 v.notes[name] = dict(scripts=s["Scripts"], kinds=s["Kinds"])
         finally:
             cc.obs_cfg = old
+        # Accept: its own model, scripts, monitors and trace validation
+        accept_stage(v, scr, th)
         # conformance: the observed returns must be explainable by SessionWait (drift only)
         # (one run per side of the model: the traces of scripts executed on blocked Reads / blocked Writes are separated)
         tp = scr.path("trace.ndjson")
@@ -194,8 +300,10 @@ def check_c13(tier, replay):
                          "real sessions ({dialled, accepted} x {callers blocked in Read, callers blocked in Write behind a full send window}; the "
                          "socket error is a failing transport or the Close of a listener that owns its transport) in "
                          "virtual time with every caller in its own goroutine; what each call returned and at which virtual second is "
-                         "judged by the WaitObs monitors and must be explainable by the model (WaitTrace). Accept and the after-Close "
-                         "clauses are scripted API cases. Non-trivial = every script (each contains at least one blocking call)")
+                         "judged by the WaitObs monitors and must be explainable by the model (WaitTrace). Accept has its own model (AcceptWait.tla: the "
+                         "deadline is read once on entry; backlog, Close, socket error; 1-2 goroutines blocked): TLC-generated and enumerated scripts on a "
+                         "real Listener, AcceptObs monitors at every return and every tick, AcceptTrace validation. The after-Close clauses are "
+                         "scripted API cases. Non-trivial = every script (each contains at least one blocking call)")
         with open(spath) as f:
             v.cov["samples"] = [json.loads(f.readline())]
         v.assumptions = ["virtual time: callers are prompt (a caller that can take a step takes it before time advances)",
